@@ -45,18 +45,18 @@ reg('C15', 'harness.hist', design_ref='6/C15',
     bounds={'quick': 'as C01 quick', 'thorough': 'as C01 thorough'}, outside='longer histories',
     stubs=HIST_STUBS, assumptions=HIST_ASSUME, expect_labels=['C15:counters', 'C15:sum', 'C15:size'])
 reg('C08', 'harness.sync', design_ref='6/C08',
-    bounds={'quick': 'every sequence of 4 operations from the 15-operation alphabet {c[k]=v, del c[k], c.pop(k), a[k]=v, del a[k], dump(), dump(k), load(), load(k), sync(), sync(clear=True), archived(False), archived(True), open(b), drop()} with symbolic keys and values, on cache+dict_archive and cache+null_archive',
+    bounds={'quick': 'every sequence of 4 operations from the 16-operation alphabet {c[k]=v, del c[k], c.pop(k), a[k]=v, del a[k], dump(), dump(k), load(), load(k), sync(), sync(clear=True), archived(False), archived(True), open(b), drop(), c.archive = b} with symbolic keys and values, on cache+dict_archive and cache+null_archive',
             'thorough': 'every sequence of 5 operations, same alphabet'},
     outside='longer sequences; file/dir/sql archives behind the cache (their dict refinement is C03); dump/load with several key arguments at once',
     stubs=[], assumptions=['keys and values are opaque atoms (arbitrary hashable objects)', 'drop()/archived(True) with no archive at all may raise ValueError (the statement does not forbid it)'],
     expect_labels=['C08:memory', 'C08:archive', 'C08:flag', 'C08:null-empty'])
 KEY_ASSUME = ['argument values and default objects are opaque atoms (arbitrary hashable, non-fast-type objects different from every literal)',
-              'signature shapes are concrete programs generated by exec: 0-3 positional-or-keyword parameters with any suffix defaulted, optional *args, 0-2 keyword-only parameters with/without default, optional **kw (quick: 23 representative shapes; thorough: all 336)',
+              'signature shapes are concrete programs generated by exec: 0-3 positional-or-keyword parameters with any suffix defaulted, optional *args, 0-2 keyword-only parameters with/without default, optional **kw (quick: 24 representative shapes; thorough: all 336)',
               'call B uses the canonical spelling; all pairs of spellings follow by transitivity through it',
               'serialising keymaps run over the structural str/repr/digest/pickle stubs: no digest collisions, pickle injective and order-preserving']
 KEY_STUBS = ['klepto.crypto str/repr/hashlib/dumps/__hash -> structural injective versions (stubs/cryptoshim.py)']
 reg('C09', 'harness.keys', design_ref='6/C09',
-    bounds={'quick': '23 shapes x 7 keymaps (+ klepto.keygen): call A in every spelling (positional count, omitted defaults, keyword order, 0-2 extra positionals, 0-2 extra keywords) vs canonical call B',
+    bounds={'quick': '24 shapes x 7 keymaps (+ klepto.keygen): call A in every spelling (positional count, omitted defaults, keyword order, 0-2 extra positionals, 0-2 extra keywords) vs canonical call B',
             'thorough': 'all 336 shapes x 11 keymaps'},
     outside='more than 3 positional / 2 keyword-only parameters, more than 2 extras; bound methods and partials; concrete fast-type argument values',
     stubs=KEY_STUBS, assumptions=KEY_ASSUME, expect_labels=['C09:canonical'])
@@ -65,12 +65,12 @@ reg('C10', 'harness.keys', design_ref='6/C10',
     outside='as C09; typed=True separation of 1/1.0/True is checked on concrete witnesses by harness.typed',
     stubs=KEY_STUBS, assumptions=KEY_ASSUME, expect_labels=['C10:distinct'])
 reg('C11', 'harness.keys', design_ref='6/C11',
-    bounds={'quick': '23 shapes x ignore specifications of <= 3 elements drawn from parameter names, indices, \'*\', \'**\' (a selection) x {raw, str} keymaps + klepto.keygen',
+    bounds={'quick': '24 shapes x ignore specifications of <= 3 elements drawn from parameter names, indices, \'*\', \'**\' (a selection) x {raw, str} keymaps + klepto.keygen',
             'thorough': 'all shapes x all specifications of <= 3 elements x 4 keymaps'},
     outside='presence/absence of an extra argument that is ignored by index or by name (not specified by the statement: neither direction demanded); instance removal for methods',
     stubs=KEY_STUBS, assumptions=KEY_ASSUME, expect_labels=['C11:merges', 'C11:discriminates'])
 reg('C17', 'harness.keys', design_ref='6/C17',
-    bounds={'quick': '23 shapes x ignore specifications (<= 3 elements) x 5 keymaps: the key of one call computed under two independent symbolic iteration orders of every set built in klepto._inspect/klepto.keymaps',
+    bounds={'quick': '24 shapes x ignore specifications (<= 3 elements) x 5 keymaps: the key of one call computed under two independent symbolic iteration orders of every set built in klepto._inspect/klepto.keymaps',
             'thorough': 'all shapes x all specifications x 8 keymaps'},
     outside='that archived results are then found by a later OS process (C04, excluded there); process state other than set iteration order and keyword order',
     stubs=KEY_STUBS + ['name `set` in klepto._inspect / klepto.keymaps -> set subclass with symbolic iteration order (set displays would bypass it; none occur in the anchored code)'],
@@ -122,7 +122,7 @@ reg('C20', 'harness.twin', design_ref='6/C20',
     stubs=HIST_STUBS + ['proxies survive real dill through __reduce__ + an in-process registry (the clone holds the same symbolic variables)'],
     assumptions=TWIN_ASSUME, expect_labels=['C20:equal-after-roundtrip', 'C20:continuation', 'C20:independent', 'C20:configuration'])
 reg('C19', 'harness.validate', design_ref='6/C19',
-    bounds={'quick': '23 signature shapes as plain functions (+ bound methods and callable instances for the simpler shapes) and up to 4 functools.partial variants each (fixing 1-3 positionals and/or one keyword); every call with 0-5 positional arguments and every subset of keywords from the pool {parameter names, keyword-only names, p, q}',
+    bounds={'quick': '24 signature shapes as plain functions (+ bound methods and callable instances for the simpler shapes) and up to 4 functools.partial variants each (fixing 1-3 positionals and/or one keyword); every call with 0-5 positional arguments and every subset of keywords from the pool {parameter names, keyword-only names, p, q}',
             'thorough': 'all 336 shapes x {function, bound method, callable instance} x all partial variants'},
     outside='more than 5 positional arguments; keyword names outside the pool (assumed equivalent to p/q because the code only tests names for equality with parameter names - an assumption, not something the solver shows); builtins, partials of partials, partials of bound methods / callable instances (probed once: validate raises AttributeError instead of TypeError for partial(instance, 1) and accepts some unbindable calls of partial(obj.method, 1); recorded in DESIGN.md, not claimed)',
     stubs=[], assumptions=['keyword names are concrete (a symbolic name would be unsound here, DESIGN.md 6/C19)', 'argument values are atoms: the verdict must not depend on them',
